@@ -235,3 +235,45 @@ func VfC12_Concurrent() {
 	vfAssert("C12.concurrent.same-output", vfAnd(gotA == wantA, gotB == wantB))
 	vfAssert("C12.concurrent.race-free", vfNoRace())
 }
+
+// VfC12_Interleaved (L4, vfPar): the same two parses as two suspendable
+// threads: which one starts and at which scheduling points (before a Lock,
+// after an Unlock - the printer's numbering mutexes and any mutex a cache or
+// pool takes) the running one is preempted are forked choices, at most 1
+// (thorough: 2) preemptions; every executed interleaving is checked for data
+// races by happens-before and each result must equal the result of parsing
+// that input alone.
+//
+//vf:unwind 400
+//vf:steps 200000000
+func VfC12_Interleaved() {
+	a := hLetterIn("a", 'a', 'c')
+	b := hLetterIn("b", 'd', 'f')
+	srcA := "%t = type { i37, %t* }\n@" + a + " = global %t zeroinitializer\ndefine i37 @f(i37 %x) {\n\t%y = add i37 %x, 1\n\tret i37 %y\n}\n!nm = !{!0}\n!0 = !{!\"s\"}\n"
+	srcB := "$c = comdat any\n@" + b + " = global [2 x i41] zeroinitializer, comdat($c)\ndeclare void @g(<3 x i41>)\n!0 = !DIFile(filename: \"a\", directory: \"b\")\n"
+	budget := 1
+	if vfTier() > 0 {
+		budget = 2
+	}
+	var gotA, gotB string
+	vfPar(func() {
+		if m, err := ParseString("a.ll", srcA); err == nil {
+			gotA = m.String()
+		}
+	}, func() {
+		if m, err := ParseString("b.ll", srcB); err == nil {
+			gotB = m.String()
+		}
+	}, budget)
+	var wantA, wantB string
+	if m, err := ParseString("a.ll", srcA); err == nil {
+		wantA = m.String()
+	}
+	if m, err := ParseString("b.ll", srcB); err == nil {
+		wantB = m.String()
+	}
+	vfReach("C12.interleaved")
+	vfAssert("C12.interleaved.accepted", vfAnd(len(wantA) > 0, len(wantB) > 0))
+	vfAssert("C12.interleaved.same-output", vfAnd(gotA == wantA, gotB == wantB))
+	vfAssert("C12.interleaved.race-free", vfNoRace())
+}
